@@ -281,7 +281,10 @@ def rule_g(repo, chk):
     ok = any(norm(s_.value) == 'tree_name.prefix + new_name' for s_ in stmts_in(rn, ast.Assign))
     chk.ob('C07.g', ok, rn, 'rename writes prefix + new name for every token')
     il = repo.find(REF, 'inline')
-    ok = any(norm(s_.value) == 'prefix + s' for s_ in stmts_in(il, ast.Assign)) and any(norm(s_.value) == 'n.prefix' for s_ in stmts_in(il, ast.Assign))
+    # the text written for a reference is <prefix of the replaced token> + <replacement>; the prefix is read from the token itself (`n`,
+    # which starts as tree_name) or, for `a.x`, from the first leaf of the attribute chain
+    ok = any(norm(s_.value) == 'prefix + s' for s_ in stmts_in(il, ast.Assign)) and \
+        any(norm(s_.value) in ('n.prefix', 'tree_name.prefix') for s_ in stmts_in(il, ast.Assign) if norm(s_.targets[0]) == 'prefix')
     chk.ob('C07.g', ok, il, 'inline keeps the prefix of every replaced reference')
 
 
